@@ -98,6 +98,21 @@ def c_add_adapter(i_kind, i_dw, i_addr, bus_kind, bus_dw, direction):
     inside = z3.ULT(s["rba"] - m["rba"], z3.BitVecVal(NBm, BW)) if NBm >= NBs else z3.ULT(m["rba"] - s["rba"], z3.BitVecVal(NBs, BW))
     h.ensure("ens.read.addr", z3.Implies(s["radr"], z3.And(m["radr"], inside)))
     h.ensure("ens.write.data-needs-master", z3.Implies(s["wdat"], m["wdat"]))
+    # invariants from the code of the bridges in the chain: a Wishbone2AXILite FSM is in its WRITE / READ state only while a (held) master request of that direction is pending
+    try:
+        if _kind(master) == "wishbone":
+            hd = h.held["m"]
+            for _n, sub in getattr(d.bus, "_submodules", []):
+                if isinstance(sub, axi.Wishbone2AXILite):
+                    st, enc = sub.fsm.state, sub.fsm.encoding
+                    h.hint("w2a.st", ult(h.v(st), len(enc)))
+                    mid = L(sub, "wishbone")                        # the Wishbone interface this bridge serves (a converter's slave side or the master itself)
+                    midrq = z3.And(b(h.v(mid.cyc)), b(h.v(mid.stb))) if mid is not None else z3.BoolVal(True)
+                    midwe = b(h.v(mid.we)) if mid is not None else (hd.we == K(1, 1))
+                    h.hint("w2a.W", z3.Implies(eqc(h.v(st), enc["WRITE"]), z3.And(b(hd.pend), hd.we == K(1, 1), midrq, midwe)))
+                    h.hint("w2a.R", z3.Implies(eqc(h.v(st), enc["READ"]), z3.And(b(hd.pend), hd.we == K(0, 1), midrq, z3.Not(midwe))))
+                    if "ERROR" in enc: h.hint("w2a.E", z3.Implies(eqc(h.v(st), enc["ERROR"]), z3.And(b(hd.pend), midrq)))
+    except (AttributeError, KeyError, TypeError): pass
     h.use_auto = True
     h.cover("cover.write", both, depth=6); h.cover("cover.read", s["radr"], depth=6)
     h.bmc_depth = 8
@@ -110,9 +125,11 @@ GRID = [("wishbone", 32, "word", "wishbone", 32, "m2s"), ("wishbone", 32, "byte"
         ("wishbone", 64, "byte", "wishbone", 32, "m2s"), ("wishbone", 32, "byte", "wishbone", 64, "s2m"),
         ("axi-lite", 32, "byte", "wishbone", 32, "m2s"), ("axi-lite", 32, "byte", "wishbone", 32, "s2m"), ("wishbone", 32, "word", "axi-lite", 32, "m2s"), ("wishbone", 32, "word", "axi-lite", 32, "s2m"),
         ("wishbone", 32, "byte", "axi-lite", 32, "m2s"), ("axi-lite", 64, "byte", "wishbone", 32, "m2s"), ("axi-lite", 32, "byte", "axi-lite", 64, "m2s"),
+        ("wishbone", 32, "word", "axi-lite", 64, "m2s"), ("wishbone", 32, "word", "axi-lite", 64, "s2m"), ("wishbone", 64, "word", "axi-lite", 32, "s2m"),
         ("axi", 32, "byte", "wishbone", 32, "m2s"), ("axi", 32, "byte", "axi-lite", 32, "m2s"), ("axi-lite", 32, "byte", "axi", 32, "m2s"), ("wishbone", 32, "word", "axi", 32, "m2s")]
 
 def cases(tier):
     return [Case(f"add_adapter({c[0]}/{c[1]}/{c[2]}->{c[3]}/{c[4]},{c[5]})", c_add_adapter, *c, timeout=900) for c in GRID]
 
-ASSUMPTIONS = ["add_adapter: configurations from a grid (standards x widths x addressing x direction); reads are checked for the address window only (data return is the converters' own contract)"]
+ASSUMPTIONS = ["add_adapter: wishbone/64 master onto a 32-bit AXI-Lite bus (DownConverter + addressing conversion + Wishbone2AXILite, m2s) is not in the grid: its joint invariant (bridge FSM state vs. the converter's skipped sub-words) was not established; the s2m twin and the 32->64 pair are",
+               "add_adapter: configurations from a grid (standards x widths x addressing x direction); reads are checked for the address window only (data return is the converters' own contract)"]
